@@ -235,6 +235,17 @@ def gen(rng, tier, shard, batch):
                         for m in MODES:
                             reqs.append("k_shdr %d %d %d %s" % (a, k, b, m))
                             reqs.append("k_shdr %d %d %d %s" % (-a, k, b, m))
+                            reqs.append("k_shdr %d %d %d %s" % (a, k, -b, m))
+                            reqs.append("k_shdr %d %d %d %s" % (-a, k, -b, m))
+                        for sa, sb in ((1, 1), (-1, 1), (1, -1), (-1, -1)):
+                            reqs.append("k_shdm %d %d %d" % (sa * a, k, sb * b))
+                            # API level: k = 18 + q - p
+                            for q_ in range(19):
+                                p_ = 18 + q_ - k
+                                if 0 <= p_ <= 18:
+                                    reqs.append("mode " + rng.choice(MODES))
+                                    reqs.append("%s * %s %s" % (rng.choice(("div", "cdiv")), G.fD(sa * a, p_), G.fD(sb * b, q_)))
+                                    break
     # the high-word pre-reduction boundary: the upper 128-bit word of the dividend equals the divisor (+-1)
     for _ in range(60 if batch == 0 else 10):
         k = rng.randrange(20, 39)
